@@ -31,9 +31,32 @@ def _open(ip, st, args, kwargs):
         st.ghost["fs_writes"] = as_value("int", tm.Add(to_term(st.ghost["fs_writes"]), tm.Int(1)))
         st.ghost["pinfile"] = b""              # O_TRUNC
         st.ghost["pinfile_exists"] = True
-        yield st, Opaque("file:w", {"path": path})
+        yield st, Opaque("file:w" if "b" in mode else "file:wt", {"path": path})
     else:
         yield st, Opaque("file:r", {"path": path})
+
+
+@LM.opaque_method("file:wt", "write")
+def _write_text(ip, st, recv, args, kwargs):
+    """text mode: a str is written (as its UTF-8 bytes in the write log); failure at any call"""
+    data = args[0]
+    if kind_of(data) != "str":
+        yield st, Raise(I.make_exc(st, "TypeError", "write() argument must be str"))
+        return
+    s = st.fork()
+    yield s, Raise(I.make_exc(s, "OSError", Sym("str", tm.Fresh("oserror", STR))))
+    rec = LM.EXTERNALS.get("file.record_write")
+    if rec is not None and "nwrites" in st.ghost:
+        rec(st, recv.attrs["path"], Sym("bytes", LM.utf8(to_term(data))))
+    yield st, as_value("int", tm.Len(to_term(data)))
+
+
+def _close(ip, st, recv, args, kwargs):
+    yield st, None
+
+
+for _tag in ("file:w", "file:wt", "file:r"):
+    LM.OPAQUE_METHODS[(_tag, "close")] = _close
 
 
 @LM.opaque_method("file:w", "write")
@@ -65,3 +88,20 @@ def _read(ip, st, recv, args, kwargs):
 @LM.register_external("os.path.isfile")
 def _isfile(ip, st, args, kwargs):
     yield st, st.ghost["pinfile_exists"]
+
+
+_splitext_root = tm.FunDecl("os.path.splitext.root", [STR], STR)
+_splitext_ext = tm.FunDecl("os.path.splitext.ext", [STR], STR)
+
+
+@LM.register_external("os.path.splitext")
+def _splitext(ip, st, args, kwargs):
+    (p,) = args
+    if kind_of(p) != "str":
+        yield st, Raise(I.make_exc(st, "TypeError", "expected str, bytes or os.PathLike object"))
+        return
+    if not is_sym(p):
+        import os
+        yield st, os.path.splitext(p)
+        return
+    yield st, (Sym("str", _splitext_root(to_term(p))), Sym("str", _splitext_ext(to_term(p))))
